@@ -372,6 +372,10 @@ def props_of(conj, sig, group):
             ps.add('C11')
         if op in ('create_file', 'append_file', 'copy_file', 'move_file') and conj == 'effect':
             ps.add('C04')
+        # a write to one file that changes ANOTHER file and nothing else: the two share storage, which only an earlier
+        # copy / move can have caused (C11: a copy is independent of its source)
+        if op in ('create_file', 'append_file') and conj == 'effect' and list(sig.get('diff') or []) == ['elsewhere']:
+            ps.add('C11')
         if op == 'set_time':
             ps.add('C19')
         if kind in ('mem', 'phys'):
